@@ -79,6 +79,9 @@ func buildSiteIndex(p *Program) {
 // singleSite returns the one call of f when f is an unexported, named, same-repository function
 // that is called (plainly, not with go/defer) from exactly one place and never used as a value.
 func singleSite(p *Program, f *ssa.Function) *ssa.Call {
+	if f != nil && f.Parent() != nil && f.Synthetic == "" {
+		return literalSite(p, f)
+	}
 	if f == nil || f.Parent() != nil || f.Synthetic != "" || f.Pkg == nil || !p.isRepoPkg(f.Pkg.Pkg.Path()) || inlineRoots[f] {
 		return nil
 	}
@@ -96,6 +99,75 @@ func singleSite(p *Program, f *ssa.Function) *ssa.Call {
 		return nil
 	}
 	return call
+}
+
+// literalSite: f is a function literal that is created once, held only in a register (not captured,
+// stored or passed on) and called plainly from exactly one place of the function that creates it
+// (`writeRow := func(q float64) error {…}` … `writeRow(q)`): that call.
+var literalSiteCache = map[*ssa.Function]*ssa.Call{}
+var literalSiteProg *ssa.Program
+
+func literalSite(p *Program, f *ssa.Function) *ssa.Call {
+	if f.Pkg == nil || !p.isRepoPkg(f.Pkg.Pkg.Path()) || inlineRoots[f] || len(f.Blocks) == 0 {
+		return nil
+	}
+	if literalSiteProg != p.SSA {
+		literalSiteProg = p.SSA
+		literalSiteCache = map[*ssa.Function]*ssa.Call{}
+	}
+	if c, done := literalSiteCache[f]; done {
+		return c
+	}
+	var site *ssa.Call
+	nMake, bad := 0, false
+	eachInstr(f.Parent(), func(i ssa.Instruction) {
+		var v ssa.Value
+		switch x := i.(type) {
+		case *ssa.MakeClosure:
+			if x.Fn == ssa.Value(f) {
+				v = x
+			}
+		}
+		if v == nil {
+			// a literal without free variables is used as a bare *ssa.Function operand
+			if call, isCall := i.(*ssa.Call); isCall && call.Call.Value == ssa.Value(f) {
+				if site != nil {
+					bad = true
+				}
+				site = call
+			} else {
+				for _, op := range i.Operands(nil) {
+					if op != nil && *op == ssa.Value(f) {
+						bad = true
+					}
+				}
+			}
+			return
+		}
+		nMake++
+		for _, r := range refs(v) {
+			switch u := r.(type) {
+			case *ssa.Call:
+				if u.Call.Value != v || site != nil {
+					bad = true
+				}
+				for _, a := range u.Call.Args {
+					if a == v {
+						bad = true
+					}
+				}
+				site = u
+			case *ssa.DebugRef:
+			default:
+				bad = true
+			}
+		}
+	})
+	if bad || nMake > 1 || site == nil || site.Parent() != f.Parent() {
+		site = nil
+	}
+	literalSiteCache[f] = site
+	return site
 }
 
 var curProgram *Program
